@@ -95,9 +95,15 @@ READER_TEMPS = {'self', 'section', 'level', 'linenum', 'options',
 def freeze_reader(r, gen):
     d = {k: v for k, v in vars(r).items() if k not in ('_fp', '_linenum')}
     loc = {}
-    if gen is not None and gen.gi_frame is not None:
-        loc = {k: v for k, v in gen.gi_frame.f_locals.items()
+    frame = getattr(gen, 'gi_frame', None)
+    if frame is not None:
+        loc = {k: v for k, v in frame.f_locals.items()
                if k not in READER_TEMPS}
+    elif gen is not None and hasattr(gen, '__dict__'):
+        # an iterator object instead of a generator: its attributes are
+        # the control state
+        loc = {k: v for k, v in vars(gen).items()
+               if k not in ('_fp', 'fp', '_reader', 'reader')}
     return freeze({'vars': d, 'locals': loc})
 
 
